@@ -1,5 +1,7 @@
 """Which rules decide which property; texts that go into the evidence / manifest."""
 from . import r_storage as S
+from . import r_storage2 as S2
+from . import r_unwind as U
 
 COMMON_ASSUMPTIONS = [
     "rustc nightly front end, MIR construction and trait resolution are correct; the mirfacts extractor serialises MIR faithfully",
@@ -23,7 +25,8 @@ def prop(pid, **kw):
 
 prop(
     "C01",
-    mir_rules=[S.rule_entity_resolver, S.rule_remover, S.rule_slot_primitives],
+    rules=["C01-R1", "C01-R3", "C01-R4", "C01-R5", "C08-R5"],
+    mir_rules=[S.rule_entity_resolver, S.rule_remover, S.rule_slot_primitives, S2.rule_grower, S2.rule_populate, S2.rule_ctor],
     floors={
         "C01-R1": lambda c: 8 * n_storages(c),
         "C01-R3": lambda c: n_storages(c) + 2,
@@ -38,7 +41,8 @@ prop(
 
 prop(
     "C02",
-    mir_rules=[S.rule_creator, S.rule_remover, S.rule_extent],
+    rules=["C02-R1", "C02-R2", "C02-R4", "X-EXT"],
+    mir_rules=[S.rule_creator, S.rule_remover, S.rule_extent, S2.rule_grower],
     floors={"C02-R1": lambda c: 3 * n_storages(c), "C02-R2": lambda c: 4 * n_storages(c), "X-EXT": lambda c: 40 * n_storages(c)},
     explanation="Static analysis. Decides: C02-R1 the creator writes the handle and all N components at one index = pre-increment len, component i into column i; "
     "C02-R2 the remover swap_removes all N+1 arrays at the resolved dense index with the pre-decrement len and returns the values moved out of columns 0..N-1 in order; "
@@ -48,6 +52,7 @@ prop(
 
 prop(
     "C03",
+    rules=["C03-R1", "C03-R7", "X-EXT"],
     mir_rules=[S.rule_entity_resolver, S.rule_direct_resolver, S.rule_extent],
     floors={"C03-R1": lambda c: 4 * n_storages(c), "C03-R7": lambda c: 2 * n_storages(c)},
     explanation="Static analysis. Decides: C03-R1/R7 every unchecked read whose index derives from a key is dominated by the exact bounds guard against the extent of the array it indexes "
@@ -57,7 +62,8 @@ prop(
 
 prop(
     "C08",
-    mir_rules=[S.rule_version_next, S.rule_creator, S.rule_slot_primitives, S.rule_remover],
+    rules=["C08-R2", "C08-R3", "C08-R5", "C01-R3"],
+    mir_rules=[S.rule_version_next, S.rule_creator, S.rule_slot_primitives, S.rule_remover, S2.rule_populate, S2.rule_ctor],
     floors={"C08-R2": 2, "C08-R3": lambda c: 5 * n_storages(c), "C08-R5": 3},
     explanation="Static analysis. Decides: C08-R2 the successor generation is checked_add(1) with a panic and no value on overflow (default) resp. wrapping_add(1) mapped away from zero (wrapping_version); "
     "C08-R3 a created handle carries the popped slot index, that slot's current generation and the storage's own A::ARCHETYPE_ID, and is the value stored and returned; "
@@ -67,7 +73,8 @@ prop(
 
 prop(
     "C09",
-    mir_rules=[S.rule_direct_resolver, S.rule_remover, S.rule_creator],
+    rules=["C09-R1", "C09-R2", "C09-R3"],
+    mir_rules=[S.rule_direct_resolver, S.rule_remover, S.rule_creator, S2.rule_grower],
     floors={"C09-R1": lambda c: 5 * n_storages(c), "C09-R2": lambda c: n_storages(c), "C09-R3": lambda c: n_storages(c)},
     explanation="Static analysis. Decides: C09-R1 the direct resolver accepts on exactly one path guarded by {key.version==self.version, dense_index<len}; "
     "C09-R2 every remover stores version<-version.next() unconditionally; C09-R3 creators write only at index old-len and never touch version.",
@@ -76,9 +83,75 @@ prop(
 
 prop(
     "C12",
-    mir_rules=[S.rule_creator, S.rule_remover],
-    floors={"C12-R1": lambda c: 4 * n_storages(c), "C12-R4": lambda c: 3 * n_storages(c)},
-    explanation="Static analysis. Decides: C12-R1 len changes by exactly +1 in the creator and -1 in the remover, capacity is written by neither; "
-    "C12-R4 the free-list pop (creator) and push (remover) are locally correct list operations.",
+    rules=["C12-R1", "C12-R2", "C12-R3", "C12-R4", "X-WMW"],
+    mir_rules=[S.rule_creator, S.rule_remover, S2.rule_push_guards, S2.rule_grower, S2.rule_populate, S2.rule_ctor, S2.rule_accessors, S2.rule_who_may],
+    floors={"C12-R1": lambda c: 4 * n_storages(c), "C12-R4": lambda c: 4 * n_storages(c), "C12-R2": lambda c: 18 * n_storages(c), "C12-R3": lambda c: 4 * n_storages(c), "X-WMW": lambda c: 10 * n_storages(c)},
+    explanation="Static analysis. Decides: C12-R1 len changes by exactly +1 in the creator and -1 in the remover, capacity is written by neither; X-WMW len/capacity/free_head/version are written "
+    "only by the functions whose role allows it and only through &mut self; C12-R2 push grows iff len>=capacity and panics iff grow()==false, push_within_capacity returns Err(argument) iff len>=capacity and never grows, "
+    "the grower refuses iff capacity>=2^24, grows every array from self.capacity to min((capacity+1)*2, 2^24) and stores capacity afterwards, the constructor panics iff n>2^24 before allocating and yields capacity n, len 0; "
+    "C12-R3 accessors report the fields; C12-R4 free-list pop/push/threading are locally correct list operations.",
     not_decided="that the free list holds exactly capacity-len positions after arbitrary histories (I4)",
+)
+
+prop(
+    "C04",
+    rules=["C04-R2", "C04-R3", "C04-R4", "C04-R5", "X-WMC", "C13-R2"],
+    mir_rules=[S.rule_remover, S2.rule_dropper, S2.rule_push_guards, S2.rule_cloner, S2.rule_who_may],
+    floors={"C04-R2": lambda c: n_storages(c), "C04-R3": lambda c: 5 * n_storages(c), "C04-R4": lambda c: 5 * n_storages(c), "C04-R5": lambda c: n_storages(c), "X-WMC": lambda c: 6 * n_storages(c)},
+    explanation="Static analysis. Decides: X-WMC the ownership primitives (write, swap_remove, drop_to, dealloc, grow) are called only by the functions whose role owns them; "
+    "C04-R2 the remover moves exactly one value out of each of the N+1 arrays and pairs it with one len decrement; C04-R3 Drop drops cells [0,len) of each column exactly once before freeing each array once with the tracked capacity, "
+    "DataPtr has no Drop impl, and no second drop is reachable from the unwind edge of a panicking cell drop; C04-R4 a refused create_within_capacity returns its argument untouched on an effect-free path; "
+    "C04-R5/C13-R2 clone clones each live cell exactly once into a fresh array.",
+    not_decided="exactly-once over all histories additionally needs I2; leak-freedom of user Drop impls; allocator behaviour",
+)
+
+prop(
+    "C06",
+    rules=["C06-R1", "C06-R2", "X-EXT"],
+    mir_rules=[S2.rule_iters, S.rule_extent],
+    floors={"C06-R1": lambda c: 6 * n_storages(c), "C06-R2": lambda c: 12 * n_storages(c)},
+    explanation="Static analysis. Decides: C06-R1 both raw-pointer iterators start at the column bases with remaining = len, pointer field i over column i; C06-R2 next() yields None iff remaining==0, otherwise the "
+    "pre-advance pointers in field order, advances every pointer by exactly one element once and decrements remaining once; X-EXT every slice accessor cuts at len.",
+    not_decided="that cells [0,len) are exactly the live entities (I2/I3); the generated query loops are judged by the specimen rules",
+)
+
+prop(
+    "C10",
+    rules=["C10-R1", "C10-R2", "C10-R4"],
+    mir_rules=[U.rule_commit_sections, S2.rule_grower, S2.rule_ctor],
+    floors={"C10-R1": lambda c: 7 * n_storages(c), "C10-R2": lambda c: 2 * n_storages(c), "C10-R4": lambda c: 2 * n_storages(c)},
+    explanation="Static analysis (may-unwind classification of every effect on every path, closed std tables, fail closed on unclassified callees). Decides: C10-R1 no creator, remover, grower or entry point wrapping them "
+    "has a may-unwind point between its first and its last state write (nor a panic path after the first write), exemptions only by keyed table entry with reason; C10-R2 the documented capacity panics precede all writes; "
+    "C10-R4 RefCell borrow panics occur only in functions that do not write the representation.",
+    not_decided="that every other property still holds after a panic beyond `no mutator was interrupted between two state writes`; panics inside user Drop during unwinding; callbacks in generated code are judged by the specimen rules",
+)
+
+prop(
+    "C11",
+    rules=["C11-R1", "C11-R2"],
+    mir_rules=[S2.rule_cells, S2.rule_cloner],
+    floors={"C11-R1": lambda c: 20 * n_storages(c), "C11-R2": lambda c: 20 * n_storages(c)},
+    explanation="Static analysis (effect summaries of RefCell acquisitions, all N). Decides: C11-R1 columns are reached only via RefCell::borrow/borrow_mut from shared receivers and get_mut from exclusive ones, no as_ptr/try_borrow_unguarded/leak/forget; "
+    "C11-R2 borrow_slice_I/borrow_component_I acquire exactly (dI, shared), the _mut variants exactly (dI, exclusive), lookups/handles/counters acquire nothing, clone acquires every column shared before its first allocation.",
+    not_decided="RefCell itself (trusted std); guard lifetimes in generated code are judged by the specimen rules",
+)
+
+prop(
+    "C13",
+    rules=["C13-R1", "C13-R2", "C13-R3", "X-EXT"],
+    mir_rules=[S2.rule_cloner, S.rule_extent],
+    floors={"C13-R1": lambda c: 4 * n_storages(c), "C13-R2": lambda c: 4 * n_storages(c), "C13-R3": lambda c: 4 * n_storages(c)},
+    explanation="Static analysis. Decides: C13-R1 the clone's len/version/capacity/free_head (and pending event logs) have the source's values as origin; C13-R2 all capacity slots and the live prefix of every dense array are cloned element-wise at equal index "
+    "into the array that becomes the same field; C13-R3 every array is a fresh allocation of self.capacity, no pointer of the source flows into the result, DataPtr is neither Copy nor Clone, the source is not written.",
+    not_decided="that the clone answers every query like the original (behavioural); diverging futures",
+)
+
+prop(
+    "C17",
+    rules=["C17-R1", "C17-R2", "C17-R4"],
+    mir_rules=[S.rule_creator, S.rule_remover, S2.rule_who_may],
+    floors={"C17-R2": lambda c: 2 * n_storages(c), "C17-R1": lambda c: 3 * n_storages(c)},
+    explanation="Static analysis (events configurations; in the others the rules assert that no event code exists). Decides: C17-R1 the logs are pushed only by creator/remover and cleared only by clear_events; "
+    "C17-R2 exactly one created-event per creation carrying the returned handle, exactly one destroyed-event per removal carrying entities[dense] read before the move; C17-R4 clear_events clears both logs and nothing else, accessors expose their own log.",
+    not_decided="history-level exactness follows from the bijection with len changes; world-level iterators are judged by the specimen rules",
 )
